@@ -105,3 +105,34 @@ Theorem C04_star_variants_sorted :
     (forall o c, In (o, c) A -> k < o /\ exists jc, assoc c (r_simp r) = Some (o, jc)).
 Proof. exact partOf_variants. Qed.
 Print Assumptions C04_star_variants_sorted.
+
+(* LOOKUP BY FACES, every complex that meets the vertex-set reading: for a duplicate-free list of two or more simplices
+   of one order, simplexWithFaces answers the one simplex whose faces are exactly those, None exactly when there is
+   none, and never raises *)
+From SV Require LookupFaces.
+Theorem C04_lookup_by_faces_exact :
+  forall r fs, VInv.vinv r -> NoDup fs -> 2 <= length fs ->
+  (forall f, In f fs -> exists j, assoc f (r_simp r) = Some (length fs - 1 - 1, j)) ->
+  match simplexWithFaces r fs with
+  | Ok (Some s) => containsSimplex r s = true /\ VInv.sameset (faces r s) fs /\
+                   forall t, containsSimplex r t = true -> VInv.sameset (faces r t) fs -> t = s
+  | Ok None => forall t, containsSimplex r t = true -> ~ VInv.sameset (faces r t) fs
+  | Raise _ => False
+  end.
+Proof. exact LookupFaces.lookup_by_faces_exact. Qed.
+Print Assumptions C04_lookup_by_faces_exact.
+
+(* DISJOINTNESS, any list of simplices of the complex (of any length, repetitions allowed): disjoint(ss) never raises and
+   answers True exactly when no two entries of the list have a member of their closures in common -- which, under the
+   vertex-set reading, is: no two entries have a point in common (an entry listed twice meets itself) *)
+From SV Require DisjointSpec.
+Theorem C04_disjoint_exact :
+  forall r ss, (forall s, In s ss -> containsSimplex r s = true) ->
+  exists b, disjoint r ss = Ok b /\ (b = true <-> ForallOrdPairs (fun s t => ~ DisjointSpec.meet r s t) ss).
+Proof. exact DisjointSpec.disjoint_spec. Qed.
+Print Assumptions C04_disjoint_exact.
+Theorem C04_meeting_is_sharing_a_point :
+  forall r s t, VInv.vinv r -> containsSimplex r s = true -> containsSimplex r t = true ->
+  (DisjointSpec.meet r s t <-> exists p, In p (basisOf r s) /\ In p (basisOf r t)).
+Proof. exact DisjointSpec.meet_iff_common_point. Qed.
+Print Assumptions C04_meeting_is_sharing_a_point.
